@@ -300,7 +300,7 @@ EXTRA = {
            "reaches the next fetch. step-skeleton/Assembly/every-word: the step skeleton with every programmed non-fetch word in the middle. boundary-predicate: is_instruction_done is true exactly on the fetch words.",
     "C13": "no-recursion on the resolved call graph. contract/* as in C06; operator-trait calls on primitive integers (reference operands) are checked operations (site kind arith-call).",
     "C14": "fan-period/pointwise: all 256 DAC bytes against the exact two-stage law, float operations evaluated in their MIR type.",
-    "C15": "The interrupt hand-over word and the MUL/DIV routines touch no bus address. documented-path/*: the pipeline agreement of C01 restricted to the data-driven control words (registers only). history/reset-control-state/*: a reset leaves the power-on control state (shared with C09). boundary-predicate: is_instruction_done is true exactly on the fetch words.",
+    "C15": "The interrupt hand-over word and the MUL/DIV routines touch no bus address. documented-path/*: the pipeline agreement of C01 restricted to the data-driven control words (registers only). history/reset-control-state/*: a reset leaves the power-on control state (shared with C09). boundary-predicate: is_instruction_done is true exactly on the fetch words. wait/by-address: the wait flag follows the address handed to the bus, on register assignments that separate every pair of registers.",
     "C17": "Key and command dispatch are must-calls (marker cell); every (code, modifiers) event forwarded to the editor is interpreted "
            "in InputState::handle; no panicking operator arithmetic on Duration/Instant in the TUI module. The helpers the dispatch analysis takes as given (InputState::is_empty, NotificationState::is_empty/clear) are decided on concrete states. load/*: the parser's no-panic clauses (C03 site/*, lexical/*, error-path/*) for the text handed over by `load PATH`.",
 }
